@@ -103,10 +103,33 @@ pub fn parse_resp_frame(data: &[u8]) -> Result<Option<(RespFrame, usize)>> {
     parse_frame(data)
 }
 
+/// Aggregates nested deeper than this are refused (the parser is recursive)
+const MAX_NESTING_DEPTH: usize = 128;
+
+/// Largest bulk string accepted (the Redis default proto-max-bulk-len)
+const MAX_BULK_LEN: usize = 512 * 1024 * 1024;
+
 /// Internal frame parser
 fn parse_frame(data: &[u8]) -> Result<Option<(RespFrame, usize)>> {
+    parse_frame_at(data, 0)
+}
+
+/// Capacity to reserve for an aggregate that declares `len` elements: never more
+/// than the bytes received so far could possibly hold (every element takes at
+/// least 3 bytes), so that memory is not reserved for a length that has merely
+/// been declared.
+fn aggregate_capacity(len: usize, received: usize) -> usize {
+    std::cmp::min(len, received / 3 + 1)
+}
+
+/// Frame parser at a given nesting depth
+fn parse_frame_at(data: &[u8], depth: usize) -> Result<Option<(RespFrame, usize)>> {
     if data.is_empty() {
         return Ok(None);
+    }
+    
+    if depth > MAX_NESTING_DEPTH {
+        return Err(FerrousError::Protocol("Aggregate types nested too deeply".into()));
     }
     
     match data[0] {
@@ -114,12 +137,12 @@ fn parse_frame(data: &[u8]) -> Result<Option<(RespFrame, usize)>> {
         b'-' => parse_error(data),
         b':' => parse_integer(data),
         b'$' => parse_bulk_string(data),
-        b'*' => parse_array(data),
+        b'*' => parse_array(data, depth),
         b'_' => parse_null(data),
         b'#' => parse_boolean(data),
         b',' => parse_double(data),
-        b'%' => parse_map(data),
-        b'~' => parse_set(data),
+        b'%' => parse_map(data, depth),
+        b'~' => parse_set(data, depth),
         _ => Err(FerrousError::Protocol(format!(
             "Invalid RESP type byte: {}", data[0] as char
         ))),
@@ -178,6 +201,9 @@ fn parse_bulk_string(data: &[u8]) -> Result<Option<(RespFrame, usize)>> {
     }
     
     let len = len as usize;
+    if len > MAX_BULK_LEN {
+        return Err(FerrousError::Protocol("Bulk string length exceeds the 512 MB limit".into()));
+    }
     let total_needed = header_consumed + len + 2; // +2 for \r\n
     
     if data.len() < total_needed {
@@ -194,7 +220,7 @@ fn parse_bulk_string(data: &[u8]) -> Result<Option<(RespFrame, usize)>> {
 }
 
 /// Parse an array: *2\r\n$3\r\nfoo\r\n$3\r\nbar\r\n
-fn parse_array(data: &[u8]) -> Result<Option<(RespFrame, usize)>> {
+fn parse_array(data: &[u8], depth: usize) -> Result<Option<(RespFrame, usize)>> {
     let (len_line, header_consumed) = match parse_line(data, 1)? {
         Some(v) => v,
         None => return Ok(None),
@@ -214,11 +240,11 @@ fn parse_array(data: &[u8]) -> Result<Option<(RespFrame, usize)>> {
     }
     
     let len = len as usize;
-    let mut elements = Vec::with_capacity(len);
+    let mut elements = Vec::with_capacity(aggregate_capacity(len, data.len()));
     let mut total_consumed = header_consumed;
     
     for _ in 0..len {
-        match parse_frame(&data[total_consumed..])? {
+        match parse_frame_at(&data[total_consumed..], depth + 1)? {
             Some((frame, consumed)) => {
                 elements.push(frame);
                 total_consumed += consumed;
@@ -268,7 +294,7 @@ fn parse_double(data: &[u8]) -> Result<Option<(RespFrame, usize)>> {
 }
 
 /// Parse map (RESP3): %2\r\n+key1\r\n:1\r\n+key2\r\n:2\r\n
-fn parse_map(data: &[u8]) -> Result<Option<(RespFrame, usize)>> {
+fn parse_map(data: &[u8], depth: usize) -> Result<Option<(RespFrame, usize)>> {
     let (len_line, header_consumed) = match parse_line(data, 1)? {
         Some(v) => v,
         None => return Ok(None),
@@ -279,12 +305,12 @@ fn parse_map(data: &[u8]) -> Result<Option<(RespFrame, usize)>> {
     let len = len_str.parse::<usize>()
         .map_err(|_| FerrousError::Protocol("Invalid map length".into()))?;
     
-    let mut pairs = Vec::with_capacity(len);
+    let mut pairs = Vec::with_capacity(aggregate_capacity(len, data.len()));
     let mut total_consumed = header_consumed;
     
     for _ in 0..len {
         // Parse key
-        let key = match parse_frame(&data[total_consumed..])? {
+        let key = match parse_frame_at(&data[total_consumed..], depth + 1)? {
             Some((frame, consumed)) => {
                 total_consumed += consumed;
                 frame
@@ -293,7 +319,7 @@ fn parse_map(data: &[u8]) -> Result<Option<(RespFrame, usize)>> {
         };
         
         // Parse value
-        let value = match parse_frame(&data[total_consumed..])? {
+        let value = match parse_frame_at(&data[total_consumed..], depth + 1)? {
             Some((frame, consumed)) => {
                 total_consumed += consumed;
                 frame
@@ -308,7 +334,7 @@ fn parse_map(data: &[u8]) -> Result<Option<(RespFrame, usize)>> {
 }
 
 /// Parse set (RESP3): ~2\r\n+elem1\r\n+elem2\r\n
-fn parse_set(data: &[u8]) -> Result<Option<(RespFrame, usize)>> {
+fn parse_set(data: &[u8], depth: usize) -> Result<Option<(RespFrame, usize)>> {
     let (len_line, header_consumed) = match parse_line(data, 1)? {
         Some(v) => v,
         None => return Ok(None),
@@ -319,11 +345,11 @@ fn parse_set(data: &[u8]) -> Result<Option<(RespFrame, usize)>> {
     let len = len_str.parse::<usize>()
         .map_err(|_| FerrousError::Protocol("Invalid set length".into()))?;
     
-    let mut elements = Vec::with_capacity(len);
+    let mut elements = Vec::with_capacity(aggregate_capacity(len, data.len()));
     let mut total_consumed = header_consumed;
     
     for _ in 0..len {
-        match parse_frame(&data[total_consumed..])? {
+        match parse_frame_at(&data[total_consumed..], depth + 1)? {
             Some((frame, consumed)) => {
                 elements.push(frame);
                 total_consumed += consumed;
